@@ -457,4 +457,9 @@ theorem snapshot_on_apply_goroutine : Generated.raftSnapshotInline = true := by 
 example : run [] [.create ⟨1, 2, 0, 2, [⟨10, [1, 2]⟩]⟩, .addNode 1 10 3, .removeNode 1 10 1, .delete 7]
     = [⟨1, 2, 0, 2, [⟨10, [2, 3]⟩]⟩] := by decide
 
+
+/-- what the catalogue says about a partition's replicas does not depend on what the applying node can
+load: the replica is listed first and unconditionally (regenerated) -/
+theorem replica_add_applied_unconditionally : Generated.replicaAddAppliedUnconditionally = true := by decide
+
 end Anndb.C14
